@@ -42,6 +42,13 @@ def run(chk):
             n += 1
             for c in sv.crash_cases(prog, wd, order=order, seed=seed, ext=ext):
                 items.append(("%s/%s%d/k=%d" % (label, order, seed, c["k"]), prog, ext, [c], [["crash_after_tick", c["k"]]]))
+    # a user cancel: the cancel tick is persisted, the status write is not -> the restart must finalize, not re-run
+    wd = chk.work / "c13_cancel"
+    wd.mkdir(parents=True, exist_ok=True)
+    for (lbl, cprog, after) in (("pipeline+cancel", sc.pipeline(), 0), ("resumable(2,2,3,1)+cancel", sc.resumable(2, 2, 3, 1), 2)):
+        for c in sv.crash_cases(cprog, wd, order="fifo", seed=after, cancel_after=after,
+                                ks=lambda kinds: [i + 1 for i, k in enumerate(kinds) if k == "cancel"]):
+            items.append(("%s/k=%d" % (lbl, c["k"]), cprog, (), [c], [["cancel", "crash_after_tick", c["k"]]]))
     # a long run: the persisted log spans several pages of the store's tick streaming (page size 100)
     wd = chk.work / "c13_long"
     wd.mkdir(parents=True, exist_ok=True)
